@@ -14,6 +14,8 @@ from mc.space.grammar import (
 LEAVES = [
     # identifiers
     ('a',), ('$',), ('_a',), ('a1',), ('\xe9',), ('a1\xe9',), ('\u03c0x',),
+    # identifiers ENDING in a combining mark (Mn, Mc) / connector punctuation
+    ('a\u0301',), ('a\u0903',), ('a\u203f',),
     # numbers
     ('1',), ('1.',), ('.5',), ('1.5',), ('1e3',), ('0x1f',), ('0',),
     # strings: plain, double, escape kinds, continuation, empty
@@ -28,7 +30,7 @@ LEAVES = [
     ('function', '(', ')', '{', '}'),
 ]
 # a reduced catalogue for the big three-slot products
-LEAVES_SMALL = [('a',), ('$',), ('\xe9',), ('1',), ('1.',), ('.5',), ("'s'",),
+LEAVES_SMALL = [('a',), ('$',), ('\xe9',), ('a\u0301',), ('1',), ('1.',), ('.5',), ("'s'",),
                 ('/r/',), ('/=/',), ('this',), ('(', 'a', ')'), ('[', ']'),
                 ('{', '}')]
 
